@@ -2,6 +2,7 @@ package main
 
 import (
 	"fmt"
+	"go/constant"
 	"go/token"
 	"go/types"
 	"os"
@@ -145,6 +146,39 @@ func checkC04(c *Ctx) (string, []string) {
 					return exprStrSubst(v, shapeOpts, subst) == "(u64(*cell(p0).VM.Gas) < cell(p0).VM.Registers[9])", false
 				})
 				c.Check(guardedBy(g, in, pass), "C04.gas-writers", "PVM.transfer · unsigned affordability test", in.Pos(), "Gas -= l only after uint64(Gas) >= l", "transfer subtracts its gas limit without the unsigned test uint64(Gas) < l (limits ≥ 2^63 would add gas)")
+				// the extra gas l is looked at only for a transfer that is going to be accepted: a refused transfer
+				// (WHO, LOW, CASH) costs the flat charge, so no refusal may follow the test of l against the remaining gas
+				refusal := map[int64]string{}
+				for _, nm := range []string{"WHO", "LOW", "CASH"} {
+					if k, isK := c.Obj("PVM", nm).(*types.Const); isK {
+						if u, exact := constant.Uint64Val(k.Val()); exact {
+							refusal[int64(u)] = nm
+						}
+					}
+				}
+				late := ""
+				for _, b := range g.Blocks {
+					ifi, isIf := b.Instrs[len(b.Instrs)-1].(*ssa.If)
+					if !isIf || exprStrSubst(ifi.Cond, shapeOpts, subst) != "(u64(*cell(p0).VM.Gas) < cell(p0).VM.Registers[9])" {
+						continue
+					}
+					if hit, found := findPath(pathQuery{start: ifi, target: func(y ssa.Instruction) bool {
+						st, isSt := y.(*ssa.Store)
+						if !isSt {
+							return false
+						}
+						if _, kreg, isC, isReg := e.registerStore(y); !isReg || !isC || kreg != 7 {
+							return false
+						}
+						k, isK := constInt(st.Val)
+						_, isRef := refusal[k]
+						return isK && isRef
+					}}); found {
+						k, _ := constInt(hit.(*ssa.Store).Val)
+						late = refusal[k] + " at " + c.pos(hit.Pos())
+					}
+				}
+				c.Check(late == "", "C04.gas-writers", "PVM.transfer · extra gas only for accepted transfers", in.Pos(), "no refusal (WHO, LOW, CASH) is reachable after the test of l against the remaining gas", "a refusal ("+late+") can follow the test of l against the remaining gas: a transfer that is refused anyway ends the invocation out of gas (all gas consumed) when its l exceeds the gas left")
 			}
 		})
 	}
